@@ -48,9 +48,11 @@ class Unclassified(Exception):
 
 
 def _offsets(text):
+  """Offsets of the line starts as the tokenizer counts lines (io.StringIO.readline: '\n' only; str.splitlines
+  would also break at VT, FF, FS, GS, RS, NEL, LS, PS)."""
   starts = [0]
-  for ln in text.splitlines(True):
-    starts.append(starts[-1] + len(ln))
+  for ln in text.split('\n'):
+    starts.append(starts[-1] + len(ln) + 1)
   return starts
 
 
